@@ -164,7 +164,17 @@ impl<'a, L> Engine<'a, L> {
         // check that candidate compound literals are indeed compound literels
         if self.options.rdf_direction() == Some(RdfDirection::CompoundLiteral) {
             let mut compound_literals = std::mem::take(&mut self.compound_literals);
-            compound_literals.retain(|is| is_compound_literal(&self.node[*is]));
+            compound_literals.retain(|is| {
+                let (g_id, s_id) = &self.gs_id[*is];
+                // a compound literal is only folded into a value object
+                // if it is referenced exactly once, from its own graph
+                is_compound_literal(&self.node[*is])
+                    && self
+                        .unique_parent
+                        .get(s_id)
+                        .and_then(Option::as_ref)
+                        .is_some_and(|(iparent, _)| self.gs_id[*iparent].0 == *g_id)
+            });
             self.compound_literals = compound_literals;
         }
 
